@@ -128,6 +128,17 @@ def product_cases(draw, tier):
     return {"A": A, "B": B, "pa": pa, "pb": pb}
 
 
+@st.composite
+def long_product_cases(draw, tier):
+    """One of m / k / n long (crossing the blocking sizes 32..512), the others <= 3."""
+    which = draw(st.sampled_from(["m", "k", "k", "n"]))
+    dims = {d: draw(st.integers(1, 3)) for d in "mkn"}
+    dims[which] = draw(gen.long_dim(cap=300 if tier == "quick" else None))
+    A, pa = draw(gen.long_qarray(dims["m"], dims["k"]))
+    B, pb = draw(gen.long_qarray(dims["k"], dims["n"]))
+    return {"A": A, "B": B, "pa": pa, "pb": pb}
+
+
 def check_product(case):
     out = Out()
     A, B = case["A"], case["B"]
@@ -392,6 +403,10 @@ PROPERTY = Property(
     clauses=[
         Clause("basis_exhaustive", check_basis, enumerate=enum_basis, budget={"quick": 0, "thorough": 0}),
         Clause("product_generated", check_product, strategy=product_cases, budget={"quick": 600, "thorough": 12000}),
+        Clause("product_long_dimension", check_product, strategy=long_product_cases, budget={"quick": 48, "thorough": 600},
+               shrink=False),
+        Clause("hermitian_long_dimension", check_herm, strategy=long_product_cases, budget={"quick": 32, "thorough": 300},
+               shrink=False),
         Clause("kernel_shapes", check_kernel, strategy=kernel_cases, budget={"quick": 400, "thorough": 6000}),
         Clause("hermitian", check_herm, strategy=herm_cases, budget={"quick": 400, "thorough": 6000}),
         Clause("frobenius", check_norm, strategy=norm_cases, budget={"quick": 400, "thorough": 6000}),
